@@ -494,6 +494,7 @@ def step (s : File) : Op → File × Out
   | .setclass slot n => withSlot s slot fun g =>
       if g.access ≠ accW then (g, .fail) else ({ g with cls := some (cstr n), marked := true }, .ok)
   | .addtagref slot t r => withSlot s slot fun g =>
+      if g.access ≠ accW then (g, .fail) else       -- `if (vg->access != 'w') HGOTO_ERROR(DFE_BADACC, FAIL)` (6287f87)
       match vinsertpair g.mem (t % 65536) (r % 65536) with
       | none => (g, .fail)
       | some p => ({ g with mem := p.1, marked := true }, .int p.2)
@@ -517,6 +518,7 @@ def step (s : File) : Op → File × Out
         | none => (g, .fail)
         | some p => ({ g with mem := p.1, marked := true }, .int ((p.2 : Int) - 1))
   | .deltagref slot t r => withSlot s slot fun g =>
+      if g.access ≠ accW then (g, .fail) else       -- 6287f87
       match vdeletetagref g.mem (t % 65536) (r % 65536) with
       | none => (g, .fail)
       | some m => ({ g with mem := m, marked := true }, .ok)
